@@ -12,7 +12,7 @@ MANIFEST_ENTRY = {
     "technique": "contract-based deductive verification (pyvc VCs + z3) against a ghost relational state; number of rows bounded",
 }
 EXPLANATION = "Pre/postconditions of the real BackupDB_v2 methods over a ghost model of the four tables."
-TRUSTED = ["SQL semantics of the 13 statements as modelled by the cursor stub", "os.stat / abspath_expanduser_unicode", "hash collision resistance for directory keys"]
+TRUSTED = ["SQL semantics of the 13 statements as modelled by the cursor stub", "os.stat / abspath_expanduser_unicode", "SHA-256 collision resistance for directory keys (backupdb_dirhash itself is under contract: DirHash)"]
 ASSUMPTIONS = []
 NOT_DECIDED = "tahoe_backup.py BackupProcessor (how the results are used), should_check probability."
 F = "allmydata/scripts/backupdb.py"
@@ -590,5 +590,22 @@ def extra_checks(rep, tier):
                            "native_outcome": "%d of %d decisions offer a cap that is not this path's most recent upload; first: %r" % (len(bad), n, bad[0]), "confirmed_on_real_code": True})
 
 
+def _dirhash_spec():
+    """hashutil.backupdb_dirhash, stubbed as the uninterpreted HF in CheckDirectory, is put under contract itself: it is
+    SHA256d(netstring(b"allmydata_backupdb_dirhash_v1") + contents), i.e. a function of exactly the packed contents, so
+    "same key => same contents" rests only on SHA-256 collision resistance (listed under TRUSTED)"""
+    from contracts import C17
+
+    class DirHash(C17.Tagged):
+        TAG = b"allmydata_backupdb_dirhash_v1"
+
+        def spec_term(self, a):
+            return C17.tagged(C17.zs(self.TAG), C17.T(a["a0"]), 32)
+
+        def reference(self, a):
+            return C17.ref_d(C17.ref_ns(self.TAG) + a["a0"], 32)
+    return DirHash("backupdb_dirhash")
+
+
 def contracts(tier):
-    return [CheckFile(), DidUploadThenCheck(), CheckDirectory(), DidCreateDirectory()]
+    return [CheckFile(), DidUploadThenCheck(), CheckDirectory(), DidCreateDirectory(), _dirhash_spec()]
